@@ -2,12 +2,11 @@
 From Coq Require Import List NArith Lia ZArith ZifyN ZifyNat ZifyBool Bool.
 From TS Require Import Base.Res Base.ListX Base.Bits Model.Timestamp Model.Packet Model.PacketObs Model.Pes Model.PesObs
   Model.Descriptor Model.Tables Model.TablesObs Model.PesFilter Model.Crc Model.Psi Model.Demux
-  Spec.PacketSpec Spec.TablesSpec Spec.Dispatch
-  Proofs.PacketProofs Proofs.TablesProofs Proofs.PesFilterProofs Proofs.SectionProofs Proofs.DispatchProofs Proofs.TableProofs.
+  Spec.PacketSpec Spec.PesSpec Spec.TablesSpec Spec.Dispatch
+  Proofs.PacketProofs Proofs.PesProofs Proofs.TablesProofs Proofs.PesFilterProofs Proofs.SectionProofs Proofs.DispatchProofs Proofs.TableProofs Proofs.DeepTotality.
 Import ListNotations.
 Open Scope N_scope.
 
-Definition pkt_ok (pk : pkt) : Prop := length pk = 188%nat /\ bytes_ok pk.
 
 (* ---- the table chain ---- *)
 Section ChainTotal.
@@ -222,6 +221,7 @@ Proof. intros H1 H2. unfold ctx_inv, queue. cbn [cx_changes]. apply Forall_app. 
 
 Section ProcTotal.
 Variable policy : request -> hkind.
+Variable deep : bool.
 
 Lemma construct_inv cx rq : ctx_inv cx -> ctx_inv (fst (fst (construct policy cx rq))) /\ handler_inv (snd (fst (construct policy cx rq))).
 Proof. intros H. unfold construct. cbn [fst snd]. split; [exact H|apply mk_handler_inv]. Qed.
@@ -259,27 +259,29 @@ Proof.
   apply Forall_forall. intros ch Hch. apply in_map_iff in Hch. destruct Hch as (q & <- & _). exact I.
 Qed.
 
-Lemma s_streams_ok fuel : forall off b, bytes_ok b ->
-  Forall (fun s => bytes_ok (si_data s) /\ (5 <= length (si_data s))%nat) (s_streams fuel off b).
-Proof.
-  induction fuel as [|fuel IH]; intros off b Hb; [constructor|]. cbn [s_streams].
-  destruct (Nat.ltb_spec (length b) 5); [constructor|].
-  destruct (Nat.ltb (length b) (5 + s_es_info_length b)); [constructor|].
-  constructor; [cbn [si_data]; auto|apply IH, Forall_skipn, Hb].
-Qed.
+
+Definition stream_fit (s : stream_info) : Prop :=
+  bytes_ok (si_data s) /\ (5 <= length (si_data s))%nat /\ (5 + s_es_info_length (si_data s) <= length (si_data s))%nat.
 
 Lemma pmt_entries_total program_pid pmt_data (ss : list stream_info) : forall cx seen reg,
-  bytes_ok pmt_data -> (4 <= length pmt_data)%nat ->
-  Forall (fun s => bytes_ok (si_data s) /\ (5 <= length (si_data s))%nat) ss -> reg_ok seen -> reg_ok reg -> ctx_inv cx ->
-  exists cx' seen' reg' ev, pmt_entries policy false program_pid pmt_data cx seen reg ss = Ok (cx', seen', reg', ev) /\
+  bytes_ok pmt_data -> s_pmt_accept pmt_data = ROk pmt_data ->
+  Forall stream_fit ss -> reg_ok seen -> reg_ok reg -> ctx_inv cx ->
+  exists cx' seen' reg' ev, pmt_entries policy deep program_pid pmt_data cx seen reg ss = Ok (cx', seen', reg', ev) /\
                             reg_ok seen' /\ reg_ok reg' /\ ctx_inv cx'.
 Proof.
-  induction ss as [|s r IH]; intros cx seen reg Hd Hl Hss Hs Hr Hcx.
+  induction ss as [|s r IH]; intros cx seen reg Hd Hacc Hss Hs Hr Hcx.
   - eexists _, _, _, _. split; [reflexivity|]. auto.
-  - inversion Hss as [|? ? (Hsb & Hsl) Hss']; subst. cbn [pmt_entries].
+  - inversion Hss as [|? ? (Hsb & Hsl & Hfit) Hss']; subst. cbn [pmt_entries].
+    assert (Hl : (4 <= length pmt_data)%nat) by (unfold s_pmt_accept in Hacc; destruct (Nat.ltb_spec (length pmt_data) 4); [discriminate|lia]).
+    assert (Eo : exists o, (if deep then do a <- obs_pmt_section pmt_data; do b <- obs_stream s; Ok (a ++ b)
+                            else do pcr <- pmt_pcr_pid pmt_data; Ok [pcr]) = Ok o).
+    { destruct deep.
+      - destruct (obs_pmt_section_total pmt_data Hd Hacc) as [a Ea]. rewrite Ea. cbn [bind].
+        destruct (obs_stream_total s Hsb Hsl Hfit) as [b Eb]. rewrite Eb. cbn [bind]. eauto.
+      - destruct (c16_pcr_pid pmt_data Hd Hl) as (E3 & _). rewrite E3. cbn [bind]. eauto. }
+    destruct Eo as [oo Eo]. rewrite Eo. clear Eo.
     destruct s as [o d]. cbn [si_data] in *.
     destruct (c16_stream_fields o d Hsb Hsl) as (E1 & E2 & Hle). rewrite E1, E2. cbn [bind].
-    destruct (c16_pcr_pid pmt_data Hd Hl) as (E3 & _). rewrite E3. cbn [bind].
     match goal with |- context [construct policy cx ?rq] =>
       pose proof (construct_inv cx rq Hcx) as [Hc1 Hc2]; destruct (construct policy cx rq) as [[cx1 hh] ev] eqn:Ec end.
     cbn [fst snd] in Hc1, Hc2.
@@ -290,7 +292,7 @@ Proof.
 Qed.
 
 Lemma pmt_section_total ps cx h tsh data origin : pmt_iok ps -> ctx_inv cx -> bytes_ok data -> (12 <= length data)%nat ->
-  exists ps' cx' ev, pmt_section policy false ps cx h tsh data origin = Ok (ps', cx', ev) /\ pmt_iok ps' /\ ctx_inv cx'.
+  exists ps' cx' ev, pmt_section policy deep ps cx h tsh data origin = Ok (ps', cx', ev) /\ pmt_iok ps' /\ ctx_inv cx'.
 Proof.
   unfold pmt_iok. intros Hr Hcx Hb Hl. unfold pmt_section, usub.
   replace (Nat.leb 4 (length data)) with true by (symmetry; apply Nat.leb_le; lia). cbn [bind].
@@ -311,10 +313,9 @@ Proof.
   { unfold s_pmt_accept in Eacc. destruct (Nat.ltb_spec (length body) 4); [discriminate|lia]. }
   set (ss := s_streams (S (length body - (4 + s_program_info_length body))) (4 + s_program_info_length body)
                        (skipn (4 + s_program_info_length body) body)).
-  assert (Hss : Forall (fun s => bytes_ok (si_data s) /\ (5 <= length (si_data s))%nat) ss)
-    by (apply s_streams_ok, Forall_skipn, Hbody).
+  assert (Hss : Forall stream_fit ss) by (apply s_streams_fit, Forall_skipn, Hbody).
   assert (Hnil : reg_ok []) by constructor.
-  destruct (pmt_entries_total (pmt_pid ps) body ss cx [] (pmt_registered ps) Hbody H4 Hss Hnil Hr Hcx)
+  destruct (pmt_entries_total (pmt_pid ps) body ss cx [] (pmt_registered ps) Hbody Eacc Hss Hnil Hr Hcx)
     as (cx1 & seen & reg & ev & E & Hs & Hg & Hcx1).
   rewrite E. cbn [bind].
   rewrite queue_removes_spec by (apply bs_difference_ok, Hg). cbn [bind].
@@ -419,9 +420,9 @@ End DemuxTotal.
 Section DemuxTotal2.
 Variable policy : request -> hkind.
 Variable scripts : N -> nat -> list action.
-Variable fz : bool.
+Variable fz deep : bool.
 
-Lemma es_obs_total idx e : begin_ok e -> exists o, es_obs false idx e = Ok o.
+Lemma es_obs_total_shallow idx e : begin_ok e -> exists o, es_obs false idx e = Ok o.
 Proof.
   destruct e as [|off hb| | |]; cbn [es_obs begin_ok]; eauto.
   intros (Hb & Hh).
@@ -434,7 +435,28 @@ Proof.
   rewrite Hpay. cbn [bind]. eauto.
 Qed.
 
-Lemma es_events_total s idx evs : Forall begin_ok evs -> exists l, es_events false s idx evs = Ok l.
+Lemma es_obs_total_deep idx e : begin_ok e -> exists o, es_obs true idx e = Ok o.
+Proof.
+  destruct e as [|off hb| | |]; cbn [es_obs begin_ok]; eauto.
+  intros (Hb & Hh).
+  assert (Hacc : s_pes_accept hb = true).
+  { rewrite c14_header in Hh by assumption. destruct (s_pes_accept hb); [reflexivity|discriminate]. }
+  assert (Hl : (6 <= length hb)%nat).
+  { unfold s_pes_accept in Hacc. apply andb_true_iff in Hacc. destruct Hacc as [H _]. apply Nat.leb_le in H. exact H. }
+  rewrite c14_contents by assumption.
+  destruct (c14_header_fields hb Hb Hl) as (Es & El). rewrite Es, El.
+  destruct (s_headerless (s_stream_id hb)); cbn [bind]; [eauto|].
+  destruct (s_ppc_accept (skipn 6 hb)) eqn:Ea; cbn [bind]; [|eauto].
+  destruct (c14_fields (skipn 6 hb)) as (_ & _ & _ & _ & _ & _ & _ & _ & _ & _ & Hpay); [apply Forall_skipn, Hb|exact Ea|].
+  rewrite Hpay. cbn [bind].
+  destruct (obs_ppc_total false idx (off + 6) (skipn 6 hb)) as [o Eo]; [apply Forall_skipn, Hb|exact Ea|].
+  rewrite Eo. cbn [bind]. eauto.
+Qed.
+
+Lemma es_obs_total idx e : begin_ok e -> exists o, es_obs deep idx e = Ok o.
+Proof. destruct deep; [apply es_obs_total_deep|apply es_obs_total_shallow]. Qed.
+
+Lemma es_events_total s idx evs : Forall begin_ok evs -> exists l, es_events deep s idx evs = Ok l.
 Proof.
   induction evs as [|e r IH]; intros H; [exists []; reflexivity|].
   inversion H as [|? ? He Hr]; subst. cbn [es_events].
@@ -443,21 +465,22 @@ Proof.
 Qed.
 
 Lemma handler_consume_total hd cx i pk : handler_inv hd -> ctx_inv cx -> pkt_ok pk ->
-  exists hd' cx' ev, handler_consume policy scripts fz false hd cx i pk = Ok (hd', cx', ev) /\ handler_inv hd' /\ ctx_inv cx'.
+  exists hd' cx' ev, handler_consume policy scripts fz deep hd cx i pk = Ok (hd', cx', ev) /\ handler_inv hd' /\ ctx_inv cx'.
 Proof.
   intros Hh Hc Hp. destruct hd as [s c|s c|s f|s|s id n]; cbn [handler_consume].
   - destruct (spc_consume_total fz pat_state ctx event (pat_section policy) pat_iok ctx_inv
                 (fun i0 cx0 h tsh data origin Hi Hx Hb Hl => pat_section_total policy i0 cx0 h tsh data origin Hi Hx Hb Hl)
                 c cx pk Hh Hc Hp) as (c' & cx' & ev & E & Hc' & Hx').
     rewrite E. cbn [bind fst snd]. eexists _, _, _. split; [reflexivity|]. split; assumption.
-  - destruct (spc_consume_total fz pmt_state ctx event (pmt_section policy false) pmt_iok ctx_inv
-                (fun i0 cx0 h tsh data origin Hi Hx Hb Hl => pmt_section_total policy i0 cx0 h tsh data origin Hi Hx Hb Hl)
+  - destruct (spc_consume_total fz pmt_state ctx event (pmt_section policy deep) pmt_iok ctx_inv
+                (fun i0 cx0 h tsh data origin Hi Hx Hb Hl => pmt_section_total policy deep i0 cx0 h tsh data origin Hi Hx Hb Hl)
                 c cx pk Hh Hc Hp) as (c' & cx' & ev & E & Hc' & Hx').
     rewrite E. cbn [bind fst snd]. eexists _, _, _. split; [reflexivity|]. split; assumption.
   - destruct Hp as [Hl Hok]. destruct (pf_consume_total f pk Hl Hok) as [[f' evs] E]. rewrite E. cbn [bind fst snd].
     destruct (es_events_total s i evs (pf_consume_begin_ok f pk f' evs (conj Hl Hok) E)) as [l El]. rewrite El. cbn [bind].
     eexists _, _, _. split; [reflexivity|]. split; [exact I|exact Hc].
-  - cbn [bind]. eexists _, _, _. split; [reflexivity|]. split; [exact I|exact Hc].
+  - assert (Eo : exists o, (if deep then obs_packet pk else Ok []) = Ok o) by (destruct deep; [apply obs_packet_total, Hp|eauto]).
+    destruct Eo as [o Eo]. rewrite Eo. cbn [bind]. eexists _, _, _. split; [reflexivity|]. split; [exact I|exact Hc].
   - destruct (queue_actions_total (scripts id n) cx Hc) as (cx' & ev & E & Hc'). rewrite E. cbn [bind fst snd].
     eexists _, _, _. split; [reflexivity|]. split; [exact I|exact Hc'].
 Qed.
@@ -467,7 +490,7 @@ Proof. unfold ctx_inv, clear_changes. cbn. constructor. Qed.
 
 (* one packet of the per-packet dispatcher: total, and the invariants survive *)
 Lemma spec_packet_total fs cx i pk : filters_inv fs -> ctx_inv cx -> pkt_ok pk ->
-  exists fs' cx' ev, spec_packet policy scripts fz false fs cx (i, pk) = Ok (fs', cx', ev) /\ filters_inv fs' /\ ctx_inv cx'.
+  exists fs' cx' ev, spec_packet policy scripts fz deep fs cx (i, pk) = Ok (fs', cx', ev) /\ filters_inv fs' /\ ctx_inv cx'.
 Proof.
   intros Hf Hc Hp. pose proof Hp as (Hl & Hok). cbn [spec_packet].
   destruct (c12_fields pk Hl Hok) as (Htei & _ & _ & Hpid & _ & (tsc & Htsc & _) & _).
@@ -494,7 +517,7 @@ Proof.
 Qed.
 
 Lemma spec_push_total pkts : forall fs cx, filters_inv fs -> ctx_inv cx -> Forall (fun ip => pkt_ok (snd ip)) pkts ->
-  exists fs' cx' ev, spec_push policy scripts fz false fs cx pkts = Ok (fs', cx', ev) /\ filters_inv fs' /\ ctx_inv cx'.
+  exists fs' cx' ev, spec_push policy scripts fz deep fs cx pkts = Ok (fs', cx', ev) /\ filters_inv fs' /\ ctx_inv cx'.
 Proof.
   induction pkts as [|[i pk] r IH]; intros fs cx Hf Hc Hp.
   - exists fs, cx, []. auto.
@@ -516,7 +539,7 @@ Proof.
 Qed.
 
 Lemma push_total fs cx base buf : filters_inv fs -> ctx_inv cx -> bytes_ok buf ->
-  exists fs' cx' ev, push policy scripts fz false fs cx base buf = Ok (fs', cx', ev) /\ filters_inv fs' /\ ctx_inv cx'.
+  exists fs' cx' ev, push policy scripts fz deep fs cx base buf = Ok (fs', cx', ev) /\ filters_inv fs' /\ ctx_inv cx'.
 Proof.
   intros Hf Hc Hb. rewrite push_spec. apply spec_push_total; [assumption|assumption|].
   apply chunks_pure_ok; [|exact Hb].
@@ -524,7 +547,7 @@ Proof.
 Qed.
 
 Lemma pushes_total bufs : forall fs cx base, filters_inv fs -> ctx_inv cx -> Forall bytes_ok bufs ->
-  exists fs' cx' ev, pushes policy scripts fz false fs cx base bufs = Ok (fs', cx', ev) /\ filters_inv fs' /\ ctx_inv cx'.
+  exists fs' cx' ev, pushes policy scripts fz deep fs cx base bufs = Ok (fs', cx', ev) /\ filters_inv fs' /\ ctx_inv cx'.
 Proof.
   induction bufs as [|b r IH]; intros fs cx base Hf Hc Hb.
   - exists fs, cx, []. auto.
@@ -538,7 +561,7 @@ Qed.
    of handler changes, in the normal build and with the CRC comparison bypassed (cfg(fuzzing)):
    Demultiplex::new followed by the pushes never panics *)
 Lemma c01_run_demux_total bufs : Forall bytes_ok bufs ->
-  exists fs cx ev, run_demux policy scripts fz false bufs = Ok (fs, cx, ev).
+  exists fs cx ev, run_demux policy scripts fz deep bufs = Ok (fs, cx, ev).
 Proof.
   intros Hb. unfold run_demux, demux_new, construct. cbn [cx_serial cx_changes].
   destruct (insert_inv filters_empty 0 (mk_handler (policy (RqByPid 0)) 0) filters_inv_empty (mk_handler_inv _ _)) as (fs0 & E0 & Hf0 & _).
